@@ -3,6 +3,7 @@ package checks
 import (
 	"context"
 	"strconv"
+	"strings"
 	"unicode/utf8"
 
 	"github.com/ddddddO/gtree"
@@ -159,6 +160,18 @@ func evalC04(c *Ctx, cs *Case) {
 			continue
 		}
 		if spellable {
+			// a call whose writer fails (error / short write) comes first: whatever it leaves behind
+			// must not show up in the output of the calls that follow
+			for _, short := range []bool{false, true} {
+				fw := mon.NewRecWriter()
+				fw.FailAt, fw.Short = 0, short
+				_ = Guard(func() error { return gtree.OutputFromMarkdown(fw, strings.NewReader(doc), encOpt[enc]) })
+				fr := mon.NewRecWriter()
+				fr.FailAt, fr.Short = 0, short
+				g0 := BuildRoot(f[0])
+				_ = Guard(func() error { return gtree.OutputFromRoot(fr, g0, encOpt[enc]) })
+			}
+			c.Count("failed_calls_before", 4)
 			o := OutputMD(doc, encOpt[enc])
 			check("OutputFromMarkdown", enc, o.Out, o, merged)
 		}
